@@ -29,13 +29,14 @@ M = {
   ("macro-locals-added-to-caller-env", "types/checker/local.go",
    "\tenv := c.currentLocalEnv()\n\tenv.addLocal(value.ToSymbol(name), l)",
    "\tenv := c.currentLocalEnv()\n\tif env.typ == macroBoundaryLocalEnvType && env.parent != nil {\n\t\tenv = env.parent\n\t}\n\tenv.addLocal(value.ToSymbol(name), l)"),
-  ("HARMLESS-resolve-loop-rewritten", "types/checker/local.go",
-   "\tfor {\n\t\tif currentEnv == nil {\n\t\t\treturn nil, nil\n\t\t}\n\n\t\tloc, ok := currentEnv.locals[nameSymbol]",
-   "\tfor ; ; {\n\t\tif nil == currentEnv {\n\t\t\tbreak\n\t\t}\n\n\t\tloc, ok := currentEnv.locals[nameSymbol]"),
+  ("HARMLESS-resolve-locals-renamed", "types/checker/local.go",
+   "\tnameSymbol := value.ToSymbol(name)\n\tcurrentEnv := l\n",
+   "\tvar nameSymbol value.Symbol = value.ToSymbol(name)\n\tvar currentEnv *localEnvironment\n\tcurrentEnv = l\n"),
  ],
  "C27": [
-  ("locals-not-restored", "types/checker/checker.go", "\t\tc.localEnvs = localEnvsCopy\n\t\tc.constantScopes", "\t\tc.constantScopes"),
+  ("locals-not-restored", "types/checker/checker.go", "\t\tc.localEnvs = localEnvsCopy\n\t\tc.constantScopes", "\t\t_ = localEnvsCopy\n\t\tc.constantScopes"),
   ("global-env-not-restored", "types/checker/checker.go", "\t\tc.setRuntimeGlobalEnv(envCopy)\n\t\tc.localEnvs = localEnvsCopy", "\t\tc.localEnvs = localEnvsCopy"),
+  ("constant-scopes-not-restored", "types/checker/checker.go", "\t\tc.constantScopes = constantScopesCopy\n", "\t\t_ = constantScopesCopy\n"),
   ("nested-compiler-left-active", "types/checker/checker.go",
    "\t\tfor c.compiler != nil && c.compiler.Parent() != nil {\n\t\t\tc.compiler = c.compiler.Parent()\n\t\t}\n", ""),
   ("local-snapshot-shares-the-maps", "types/checker/local.go",
